@@ -13,6 +13,7 @@ def conds_state_clone : List String := [
 def conds_state_appendHandler : List String := [
    "func (*state) appendHandler( opts muxOptions, desc protoreflect.MethodDescriptor, h *handler, ) error",
    "if err := s.path.addRule(implicitRule, desc, h.method); err != nil",
+   "return fmt.Errorf(\"[%s] implicit rule %s: %w\", desc.FullName(), implicitRule.String(), err)",
    "range opts.httprules.getRules(name)",
    "if err := s.path.addRule(rule, desc, h.method); err != nil",
    "return fmt.Errorf(\"[%s] invalid ServiceConfig.http rule %s: %w\", desc.FullName(), rule.String(), err)",
